@@ -581,7 +581,8 @@ func panicSig(fn string, p string, x hdrT) string {
 // ---------- CheckIfValidWorkShare ----------
 
 func wsCorpus() []string {
-	return []string{"pre-d0", "post-d0", "post-sharediff-rounds-to-0", "post-block", "pre-valid", "pre-sub", "pre-invalid", "post-cutoff90"}
+	return []string{"pre-d0", "post-d0", "post-sharediff-rounds-to-0", "post-block", "pre-valid", "pre-sub", "pre-invalid", "post-cutoff90",
+		"post-engine-err-zero-hash", "post-engine-err-low-hash", "pre-engine-err-zero-hash", "post-aux-engine-err-zero-hash"}
 }
 
 func caseWs(h *H, r *hlib.Rng, variant string) {
@@ -612,6 +613,13 @@ func caseWs(h *H, r *hlib.Rng, variant string) {
 	}
 	e := genEnv(r, t)
 	e.fake = false
+	if r.Chance(12) {
+		// the engine cannot produce a PoW hash (e.g. ErrInvalidMixHash); the real engines answer (zero hash, error)
+		e.err0, e.err1 = true, true
+		if r.Chance(60) {
+			e.h0, e.h1 = common.Hash{}, common.Hash{}
+		}
+	}
 	base := func(ptn uint64, d int64) {
 		x.ptn, x.diff, x.aux = new(big.Int).SetUint64(ptn), big.NewInt(d), -1
 		x.shaC, x.shaT, x.scrC, x.scrT, x.kawD = big.NewInt(0), big.NewInt(0), big.NewInt(0), big.NewInt(0), big.NewInt(0)
@@ -643,6 +651,19 @@ func caseWs(h *H, r *hlib.Rng, variant string) {
 		base(fork+5, 9000000)
 		x.kawD = big.NewInt(10000000)
 		e.h0 = hashOf(new(big.Int).Div(two256, big.NewInt(9000000)))
+	case "post-engine-err-zero-hash", "post-engine-err-low-hash", "pre-engine-err-zero-hash", "post-aux-engine-err-zero-hash":
+		base(fork+5, 1000)
+		x.kawD = bigPow2(60)
+		if variant == "pre-engine-err-zero-hash" {
+			x.ptn = big.NewInt(10)
+		}
+		if variant == "post-aux-engine-err-zero-hash" {
+			x.aux, x.ptn = 1, new(big.Int).SetUint64(fork+trans+5)
+		}
+		e.err0, e.err1, e.h0, e.h1 = true, true, common.Hash{}, common.Hash{}
+		if variant == "post-engine-err-low-hash" {
+			e.h0, e.h1 = hashOf(big.NewInt(7)), hashOf(big.NewInt(7))
+		}
 	}
 	wh, donorPow := x.build()
 	c := e.chain()
@@ -662,6 +683,9 @@ func caseWs(h *H, r *hlib.Rng, variant string) {
 	// monitors
 	eh, eerr := engHash(e, x)
 	hv := new(big.Int).SetBytes(eh[:])
+	if eerr && got != types.Invalid {
+		h.fail("engine-error-accepted:stub:CheckIfValidWorkShare", fmt.Sprintf("the engine answers an error (no PoW hash; returned bytes %s) and the header is classified %s as a workshare (difficulty %s, primeTerminus %s)", hv, obs, x.diff, x.ptn))
+	}
 	if x.diff.Sign() > 0 && !eerr {
 		sealed := new(big.Int).Mul(hv, x.diff).Cmp(two256) <= 0
 		if sealed && got != types.Valid {
@@ -686,7 +710,8 @@ func caseWs(h *H, r *hlib.Rng, variant string) {
 // ---------- UncleWorkShareClassification ----------
 
 func classCorpus() []string {
-	return []string{"sha-eq-target", "sha-below", "scrypt-d0", "sha-dnil", "post-noaux", "transition-progpow-block", "kawpow-block", "kawpow-share", "powid5", "pre-aux"}
+	return []string{"sha-eq-target", "sha-below", "scrypt-d0", "sha-dnil", "post-noaux", "transition-progpow-block", "kawpow-block", "kawpow-share", "powid5", "pre-aux",
+		"kawpow-engine-err-zero-hash", "transition-engine-err-zero-hash", "pre-engine-err-zero-hash"}
 }
 
 func caseClass(h *H, r *hlib.Rng, variant string) {
@@ -698,6 +723,12 @@ func caseClass(h *H, r *hlib.Rng, variant string) {
 		x.diff = randBig(r, 100)
 	}
 	e := genEnv(r, safeTarget(x.diff))
+	if r.Chance(10) {
+		e.err0, e.err1 = true, true
+		if r.Chance(60) {
+			e.h0, e.h1 = common.Hash{}, common.Hash{}
+		}
+	}
 	// for donor-hash shares put the share difficulty next to 2^256 / donorPow
 	tune := func(which string) {
 		wh0, dp := x.build()
@@ -773,6 +804,15 @@ func caseClass(h *H, r *hlib.Rng, variant string) {
 		post(1)
 		x.ptn = big.NewInt(100)
 		e.h0 = hashOf(big.NewInt(1))
+	case "kawpow-engine-err-zero-hash", "transition-engine-err-zero-hash", "pre-engine-err-zero-hash":
+		post(1)
+		if variant != "kawpow-engine-err-zero-hash" {
+			x.aux, x.ptn = -1, new(big.Int).SetUint64(fork+3)
+		}
+		if variant == "pre-engine-err-zero-hash" {
+			x.ptn = big.NewInt(100)
+		}
+		e.err0, e.err1, e.h0, e.h1 = true, true, common.Hash{}, common.Hash{}
 	}
 	wh, donorPow := x.build()
 	c := e.chain()
@@ -799,6 +839,9 @@ func caseClass(h *H, r *hlib.Rng, variant string) {
 		if d == nil || d.Sign() <= 0 || new(big.Int).Mul(pv, d).Cmp(two256) > 0 {
 			h.fail("donor-share-needs-target", fmt.Sprintf("powid %d share classified Valid with donor hash %s and share difficulty %v", x.aux, pv, d))
 		}
+	}
+	if _, eerr := engHash(e, x); eerr && !e.fake && got != types.Invalid && !(x.ptn.Uint64() >= fork && x.aux >= 2 && x.aux <= 4) {
+		h.fail("engine-error-accepted:stub:UncleWorkShareClassification", fmt.Sprintf("the engine answers an error (no PoW hash) and the header is classified %s (difficulty %s, primeTerminus %s, powid %d)", obs, x.diff, x.ptn, x.aux))
 	}
 	if !e.fake && got == types.Block {
 		eh, eerr := engHash(e, x)
